@@ -447,6 +447,7 @@ fn inside_convex(vs: &[(f64, f64)], c: (f64, f64), p: (f64, f64), margin: f64) -
 
 pub fn polygon_event(rng: &mut Rng, depth: u8, exact: bool, centre: (f64, f64), radius: f64, vs: &[(f64, f64)], convex: bool, class: &str) -> Option<Value> {
   let res = guarded(|| nested::polygon_coverage(depth, vs, exact));
+  let pmsg = if res.is_none() { last_panic() } else { String::new() };
   if res.as_ref().map_or(false, |bm| bm.entries.len() > MAX_CELLS) { return None; }
   let n = 1u32 << depth;
   let mut ev = json!({"ev": "polygon", "d": depth, "exact": exact as u8, "convex": convex as u8, "nv": vs.len(), "cls": class,
@@ -488,6 +489,7 @@ pub fn polygon_event(rng: &mut Rng, depth: u8, exact: bool, centre: (f64, f64), 
   }
   m.insert("contains_bad".into(), json!(contains_bad));
   m.insert("contains_n".into(), json!(contains_n));
+  m.insert("pmsg".into(), json!(pmsg));
   // attribution only (known findings): the bounding cone as the crate documents it (mean direction of the vertices, largest
   // distance to a vertex), whether its centre is in a polar cap, whether its radius is just below an entry of the starting-depth
   // table, and whether every vertex cell at the starting depth is the centre cell or one of its neighbours
